@@ -14,6 +14,16 @@ CLAIMED = {
             "spacing; polar/spherical 3-6 cells; cylindrical 3x4/3x5) with droplet centres and radii symbolic; z3 "
             "decides: one droplet per original, volume = covered cells (own min-image oracle), centre within half a "
             "cell, position inside the box", "§4 C01"),
+    "C02": ("bounded symbolic execution of locate_droplets_in_mask on every binary image (bits symbolic, forked) of "
+            "Cartesian grids 1D <=6 cells / 2D 3x3 with every periodicity mask and symbolic spacing/origin (2D: "
+            "anisotropic spacing times a symbolic scale), cylindrical 2x3/3x3; independent torus flood-fill oracle; "
+            "z3 decides one-to-one correspondence to components (volume, unwrapped centre of mass modulo the "
+            "period), non-overlap of results, and the left-out rule", "§4 C02"),
+    "C03": ("bounded symbolic execution of polar_coordinates and of get_phase_field / Emulsion.get_phasefield for "
+            "all five droplet classes on concrete grids (Cartesian 1D-3D incl. periodic axes, polar, spherical, "
+            "cylindrical) with centre, radius, width, levels, amplitudes symbolic; tanh / trig / harmonics as "
+            "axiomatised symbols; z3 decides geometry = own min-image metric and spherical-angle relations, "
+            "range, midpoint <=> inside, indicator, monotonicity, translation = roll, emulsion = clip(sum)", "§4 C03"),
     "C06": ("bounded symbolic execution of DropletTrackList.from_emulsion_time_course on time courses of <=3 frames x "
             "<=2 droplets (thorough: 3 droplets / 4 frames), 1D/2D, with and without periodic grid, both methods; "
             "positions, radii, times and cut-off symbolic; partition, copy-independence, consecutive-frame and "
